@@ -550,11 +550,11 @@ theorem settle_frame (cfg : Cfg) (hR : Removes cfg) (s : State) (l : Ch) (seq : 
       (stepWith cfg s (.settle l seq mode)).1.ctl.rel = dropRel s.ctl.rel (l, seq) := by
   simp only [stepWith, settle]
   cases hl : lookup (l, seq) s.ctl.commits with
-  | none => intro hd; obtain ⟨_, _, _, _, _, _, hd⟩ := hd; cases hd
+  | none => intro hd; obtain ⟨_, _, _, _, _, _, _, hd⟩ := hd; cases hd
   | some p =>
     simp only
     cases hst : settleState cfg s l seq p mode with
-    | none => intro hd; obtain ⟨_, _, _, _, _, _, hd⟩ := hd; cases hd
+    | none => intro hd; obtain ⟨_, _, _, _, _, _, _, hd⟩ := hd; cases hd
     | some s' => intro _; exact settleState_rel cfg hR s s' l seq p mode hst
 
 theorem settle_removes (cfg : Cfg) (hR : Removes cfg) (s : State) (l : Ch) (seq : Seq) (mode : Mode) :
@@ -571,11 +571,11 @@ theorem settle_removes_failure (cfg : Cfg) (hE : cfg.ackErrRefunds = true)
       (stepWith cfg s (.settle l seq mode)).1.ctl.rel = dropRel s.ctl.rel (l, seq) := by
   simp only [stepWith, settle]
   cases hl : lookup (l, seq) s.ctl.commits with
-  | none => intro hd; obtain ⟨_, _, _, _, _, _, hd⟩ := hd; cases hd
+  | none => intro hd; obtain ⟨_, _, _, _, _, _, _, hd⟩ := hd; cases hd
   | some p =>
     simp only
     cases hst : settleState cfg s l seq p mode with
-    | none => intro hd; obtain ⟨_, _, _, _, _, _, hd⟩ := hd; cases hd
+    | none => intro hd; obtain ⟨_, _, _, _, _, _, _, hd⟩ := hd; cases hd
     | some s' =>
       intro _
       cases mode with
@@ -744,7 +744,7 @@ theorem settle_refund_credits (cfg : Cfg) (hs : Sound cfg) (hE : cfg.ackErrRefun
         doneOut { bal := b', ctl := refundCtl cfg s.ctl (e.ch, e.seq) p } e.ch p) := by
     simp [stepWith, settle, hl, hst]
   rw [hstep]
-  refine ⟨⟨_, _, _, _, _, _, rfl⟩, ?_, ?_, ?_, ?_, ?_⟩
+  refine ⟨⟨_, _, _, _, _, _, _, rfl⟩, ?_, ?_, ?_, ?_, ?_⟩
   · rw [← hp1, ← hp3]; exact hc1
   · intro k hk; rw [← hp1] at hk; exact hc2 k hk
   · intro hn1 hn2 d; rw [← hp1] at hn1 hn2 ⊢; exact hc3 hn1 hn2 d
@@ -995,14 +995,14 @@ theorem recvWith_credit_or_error (cfg : Cfg) (hc : RecvOk cfg) (s : State) (l : 
   | false =>
     right
     simp only [Bool.false_eq_true, ↓reduceIte, and_true]
-    exact ⟨_, _, _, _, _, _, rfl⟩
+    exact ⟨_, _, _, _, _, _, _, rfl⟩
   | true =>
     left
     obtain ⟨_, b1, b2, ha, hcv, _, hfin⟩ := recvBal_ok cfg hc _ _ _ _ _ _ _ _ _ _ hr
     obtain ⟨ae, _, _, aother, ato⟩ := recvApp_eff ha
     obtain ⟨mb, me⟩ := memoStep_bal cfg b2 (cpOf s.ctl l) l m snd
     simp only [↓reduceIte]
-    refine ⟨⟨_, _, _, _, _, _, rfl⟩, recvApp_pos ha, trivial, ?_⟩
+    refine ⟨⟨_, _, _, _, _, _, _, rfl⟩, recvApp_pos ha, trivial, ?_⟩
     rw [hfin, mb, me]
     by_cases hF : t = .F
     · subst hF
@@ -1030,7 +1030,7 @@ theorem recvWith_nonhex_error (cfg : Cfg) (hc : RecvOk cfg) (s : State) (l : Ch)
   cases hr : (recvBal cfg s.ctl.vmeta s.bal (cpOf s.ctl l) l t k to amt m snd).2 with
   | false =>
     simp only [Bool.false_eq_true, ↓reduceIte, and_true]
-    exact ⟨_, _, _, _, _, _, rfl⟩
+    exact ⟨_, _, _, _, _, _, _, rfl⟩
   | true =>
     exfalso
     obtain ⟨_, b1, b2, _, hcv, _, _⟩ := recvBal_ok cfg hc _ _ _ _ _ _ _ _ _ _ hr
@@ -1057,7 +1057,7 @@ theorem recvWith_memo (cfg : Cfg) (hc : RecvOk cfg) (s : State) (l : Ch) (t : To
     cases hr : (recvBal cfg s.ctl.vmeta s.bal (cpOf s.ctl l) l t k to amt .callrev snd).2 with
     | false =>
       simp only [Bool.false_eq_true, ↓reduceIte, and_true]
-      exact ⟨_, _, _, _, _, _, rfl⟩
+      exact ⟨_, _, _, _, _, _, _, rfl⟩
     | true =>
       obtain ⟨_, _, _, _, _, hm, _⟩ := recvBal_ok cfg hc _ _ _ _ _ _ _ _ _ _ hr
       exact absurd rfl hm
@@ -1066,12 +1066,12 @@ theorem recvWith_memo (cfg : Cfg) (hc : RecvOk cfg) (s : State) (l : Ch) (t : To
     | false =>
       right
       simp only [Bool.false_eq_true, ↓reduceIte, and_true]
-      exact ⟨_, _, _, _, _, _, rfl⟩
+      exact ⟨_, _, _, _, _, _, _, rfl⟩
     | true =>
       left
       obtain ⟨_, b1, b2, ha, hcv, _, hfin⟩ := recvBal_ok cfg hc _ _ _ _ _ _ _ _ _ _ hr
       simp only [↓reduceIte]
-      refine ⟨⟨_, _, _, _, _, _, rfl⟩, ?_, ?_⟩
+      refine ⟨⟨_, _, _, _, _, _, _, rfl⟩, ?_, ?_⟩
       · rw [hfin]
         simp only [memoStep]
         obtain ⟨_, am, _, _, _⟩ := recvApp_eff ha
@@ -1344,7 +1344,7 @@ theorem settle_refund_cosmos (cfg : Cfg) (hs : Sound cfg) (hE : cfg.ackErrRefund
   simp only [refundState, refundApp, hret, ↓reduceIte]
   by_cases hlt : sget s.bal.bank (escrow l, bankDenom p.tok l) < p.amt
   · simp only [hlt, ↓reduceIte]
-    intro hd; obtain ⟨_, _, _, _, _, _, hd⟩ := hd; cases hd
+    intro hd; obtain ⟨_, _, _, _, _, _, _, hd⟩ := hd; cases hd
   · simp only [hlt, ↓reduceIte, refundHook, toBaseCoin, hnib, Bool.not_false, hform, Bool.false_eq_true]
     intro _
     refine ⟨rfl, ?_, ?_, ?_⟩
